@@ -11,9 +11,9 @@ import vlib
 
 PID = "C19"
 FORMULAS = ["Protected", "Protected.NotRecorded", "Protected.StaleUnlabel", "Allowed", "LabelFirst", "LabelFirst.StaleUnlabel",
-            "LabelLast", "LabelLast.StaleUnlabel", "Owned", "IndexAgree"]
-# D11 (DESIGN section 4): every manifestation of the stale un-labelling shares one fingerprint
-FINGERPRINTS = {"Protected.StaleUnlabel": "StaleUnlabel", "LabelFirst.StaleUnlabel": "StaleUnlabel", "LabelLast.StaleUnlabel": "StaleUnlabel"}
+            "LabelLast", "LabelLast.StaleUnlabel", "Owned", "IndexAgree", "UsageAfterUser"]
+# D11 (DESIGN section 4) shows as the three *.StaleUnlabel formulas; a known-findings entry lists them as `fingerprints`
+D11_FINGERPRINTS = ["Protected.StaleUnlabel", "LabelFirst.StaleUnlabel", "LabelLast.StaleUnlabel"]
 # the model of the code as written violates these (D11); the model with the candidate repair satisfies everything
 WITNESS = [("MCUsage_witness_protected.cfg", ["Protected"]), ("MCUsage_witness_labellast.cfg", ["LabelLast"]),
            ("MCUsage_witness_labelfirst.cfg", ["LabelFirst"])]
@@ -56,40 +56,52 @@ def drive_and_judge(ctx, scs, sweep=0, variants="rotate", shards=6, allprobes=Fa
     for formula, line, scid in viols:
         per[formula] = per.get(formula, 0) + 1
         ctx.violation(formula, scid, ctx.replay_file(replay_scenario(by_id, scid)), "trace line %d" % line,
-                      fingerprint=FINGERPRINTS.get(formula, formula))
+                      fingerprint=formula)
     s["violations_by_formula"] = per
     return s, nlines
 
 
 def run(ctx):
+    import concurrent.futures
     quick = ctx.quick
     if quick:
-        plan = [("MCUsage_quick_race.cfg", 1500), ("MCUsage_quick_faults.cfg", 1500), ("MCUsage_quick_two.cfg", 700)]
+        plan = [("MCUsage_quick_race.cfg", 1400), ("MCUsage_quick_faults.cfg", 1400), ("MCUsage_quick_two.cfg", 600), ("MCUsage_quick_comp.cfg", 1500)]
+        fixed = "MCUsage_fixed_quick.cfg"
     else:
-        plan = [("MCUsage_quick_race.cfg", 20000), ("MCUsage_quick_faults.cfg", 45000), ("MCUsage_quick_two.cfg", 8000),
-                ("MCUsage_thorough_race.cfg", 60000), ("MCUsage_thorough_faults.cfg", 40000), ("MCUsage_thorough_two.cfg", 40000)]
+        plan = [("MCUsage_quick_race.cfg", 20000), ("MCUsage_quick_faults.cfg", 60000), ("MCUsage_quick_two.cfg", 8000), ("MCUsage_quick_comp.cfg", 2000),
+                ("MCUsage_thorough_race.cfg", 40000), ("MCUsage_thorough_racefaults.cfg", 25000), ("MCUsage_thorough_faults.cfg", 30000),
+                ("MCUsage_thorough_two.cfg", 30000)]
+        fixed = "MCUsage_fixed.cfg"
+    # (M)+(G): the scenario-generating runs, the witnesses (the design as coded admits the D11 race: expected model-level
+    # violations) and the model with the candidate repair (every formula holds) run side by side
+    jobs = [(cfg, ()) for cfg, _ in plan] + WITNESS + [(fixed, ())]
+
+    def one(job):
+        cfg, exp = job
+        return cfg, ctx.model_check("MCUsage", cfg, sub="mc_" + cfg[len("MCUsage_"):-4], workers=4 if quick else 8,
+                                    timeout=300 if quick else 3000, heap="6g", expect_violations=exp)
+
+    with concurrent.futures.ThreadPoolExecutor(max_workers=4 if quick else 3) as ex:
+        res = dict(ex.map(one, jobs))
     scs, states, trans, emitted, consts = [], 0, 0, 0, {}
     for cfg, n in plan:
-        name = cfg[len("MCUsage_"):-4]
-        mc = ctx.model_check("MCUsage", cfg, sub="mc_" + name, workers=8 if quick else 16, timeout=300 if quick else 3000, heap="12g")
+        name, mc = cfg[len("MCUsage_"):-4], res[cfg]
         scs += [{"id": "%s-%s-%07d" % (PID, name, i), "hist": h} for i, h in ctx.sample_lines(mc["emitted_file"], n, mc["emitted"])]
         states += mc["states"]
         trans += mc["transitions"]
         emitted += mc["emitted"]
         consts[cfg] = dict(states=mc["states"], transitions=mc["transitions"], depth=mc["depth"], scenarios=mc["emitted"])
-    # the design as coded admits the D11 race (expected model-level violations); with the candidate repair every formula holds
     for cfg, exp in WITNESS:
-        mc = ctx.model_check("MCUsage", cfg, sub="mc_" + cfg[len("MCUsage_"):-4], workers=4, timeout=300, expect_violations=exp)
-        consts[cfg] = dict(violates=exp, states_to_violation=mc["states"])
-    mc = ctx.model_check("MCUsage", "MCUsage_fixed.cfg", sub="mc_fixed", workers=8, timeout=600)
-    consts["MCUsage_fixed.cfg"] = dict(states=mc["states"], transitions=mc["transitions"], holds="all formulas, FixBump = TRUE")
+        consts[cfg] = dict(violates=exp, states_to_violation=res[cfg]["states"])
+    consts[fixed] = dict(states=res[fixed]["states"], transitions=res[fixed]["transitions"], holds="all formulas, FixBump = TRUE")
+    ctx.rng.shuffle(scs)   # the real-call-index sweep takes the first scenarios of every shard
     chosen = regression() + scs
     s, nlines = drive_and_judge(ctx, chosen, sweep=2 if quick else 12, variants="rotate" if quick else "all",
                                 shards=6 if quick else 14, allprobes=not quick)
     ctx.cov.update(dict(
         states=states, transitions=trans, traces_validated_against_impl=s["runs"], samples=s["samples"][:2], model_runs=consts,
         scenarios_emitted=emitted, scenarios_replayed=s["scenarios"], reconciles=s["reconciles"], sweep_runs=s["sweep_runs"],
-        admission_probes=s["probes"], events=nlines, per_action_counts=s["counts"],
+        admission_probes=s["probes"], events=nlines, formula_antecedent_hits=s.get("hits", {}), per_action_counts=s["counts"],
         drift=dict(unmatched_calls=s["drift"], runs_with_drift=s["drift_runs"], by_call=s.get("drift_by_abs", {})),
         monitor_formulas=FORMULAS, violations_by_formula=s["violations_by_formula"], exhaustive=(emitted == len(scs)),
         checker_cmd="tlc MCUsage (M,G) -> harness/drivers/usage on /repo (T) -> tlc MonUsage",
@@ -104,10 +116,23 @@ def run(ctx):
         "failurePolicy), read at run time; the handler is reached through the http.Handler the real SetupWebhookWithManager registered",
         "probes run the real handler with its annotation patch captured instead of applied; delete requests that are part of a "
         "scenario go through the store and take effect",
-        "the composer's re-application of a composed Usage is the patching apply with MustBeControllableBy + the real "
-        "usage.RespectOwnerRefs (as composition_pt.go does), not a full XR reconcile",
+        "the composer's re-application of a composed Usage is the real composite.PTComposer.Compose on an XR whose revision has the "
+        "Usage as its only resource template (not a full XR reconcile); the composed Usage itself is created by the environment "
+        "with the metadata the composer gives it, because the composer generates names",
         "verdict only from traces of the real reconciler / webhook judged by MonUsage.tla",
     ]
+
+
+def run_composed(ctx, n=1500):
+    """Rider for C08 (formula UsageAfterUser): only the scenarios with composed Usages by a using resource that exists / is being
+    deleted / is gone when the Usage is deleted, with a fault at every call. Call with a child context (ctx.sub)."""
+    mc = ctx.model_check("MCUsage", "MCUsage_quick_comp.cfg", sub="mc_quick_comp", workers=4, timeout=300)
+    scs = [{"id": "%s-quick_comp-%07d" % (PID, i), "hist": h} for i, h in ctx.sample_lines(mc["emitted_file"], n, mc["emitted"])]
+    s, nlines = drive_and_judge(ctx, scs, variants="all", shards=4)
+    ctx.cov.update(dict(states=mc["states"], transitions=mc["transitions"], traces_validated_against_impl=s["runs"], samples=s["samples"][:1],
+                        events=nlines, formula_antecedent_hits={k: v for k, v in s.get("hits", {}).items() if k.startswith("UsageAfterUser")},
+                        violations_by_formula=s["violations_by_formula"]))
+    return s
 
 
 def replay(ctx, path):
